@@ -1435,3 +1435,79 @@ def repeated_result_refused(ctx, rule):
                'completion runs a second time for it'
                % (sorted(set(done) - refused) or sorted(quiet),
                   sorted(quiet)), ctx.loc(ra))
+
+
+def timestamp_columns_are_callables(ctx, rule):
+    """`created_at` / `updated_at` of every model: the column default /
+    onupdate is something SQLAlchemy calls per INSERT / UPDATE (a function
+    reference or a lambda), not the value of a call made once when the
+    class body runs - `onupdate=utils.utc_now_sec()` stamps every later
+    UPDATE with the process start time, and the expiration policy, the
+    spec cache key and the integrity check all read these columns."""
+    prog = ctx.prog
+    tree = prog.module('mistral.db.sqlalchemy.model_base')
+    n = 0
+    for st in ast.walk(tree):
+        if not (isinstance(st, ast.Assign) and len(st.targets) == 1 and
+                isinstance(st.targets[0], ast.Name) and
+                st.targets[0].id in ('created_at', 'updated_at') and
+                isinstance(st.value, ast.Call) and
+                U.call_name(st.value) == 'Column'):
+            continue
+        for k in st.value.keywords:
+            if k.arg in ('default', 'onupdate'):
+                n += 1
+                okc = isinstance(k.value, (ast.Lambda, ast.Name,
+                                           ast.Attribute))
+                utc = 'utc_now' in norm(k.value, 200) or \
+                    'utcnow' in norm(k.value, 200)
+                rule.check(okc and utc,
+                           'mistral.db.sqlalchemy.model_base :: %s %s'
+                           % (st.targets[0].id, k.arg),
+                           '%s of %s is %s: not a callable evaluated per '
+                           'row change that returns the current UTC time '
+                           '(a call made at import time freezes the value)'
+                           % (k.arg, st.targets[0].id, norm(k.value)),
+                           prog.loc('mistral.db.sqlalchemy.model_base.'
+                                    '_MistralModelBase.to_dict'))
+    if n < 2:
+        raise AnalysisError('timestamp columns of the model base not found')
+
+
+def facade_forwards_parameters(ctx, rule, names=None):
+    """mistral/db/v2/api.py is a facade: every function hands each of its
+    parameters to the implementation.  A parameter that is dropped there
+    (a query_filter that makes an update conditional, `insecure`, `fields`)
+    silently changes what the call means for every caller."""
+    prog = ctx.prog
+    n = 0
+    for q, f in sorted(prog.funcs.items()):
+        if f.module != 'mistral.db.v2.api' or f.parent is not None:
+            continue
+        if names is not None and f.name not in names:
+            continue
+        calls = [c for c in own_nodes(f.node) if isinstance(c, ast.Call) and
+                 isinstance(c.func, ast.Attribute) and
+                 dotted(c.func.value) == 'IMPL']
+        if len(calls) != 1:
+            continue
+        c = calls[0]
+        a = f.node.args
+        params = [x.arg for x in a.posonlyargs + a.args + a.kwonlyargs]
+        star = ([a.vararg.arg] if a.vararg else []) + \
+            ([a.kwarg.arg] if a.kwarg else [])
+        used = set()
+        for x in list(c.args) + [k.value for k in c.keywords]:
+            used |= set(U.names_in(x))
+        # `session` is injected by the implementation's own decorator
+        missing = [p_ for p_ in params + star
+                   if p_ not in used and p_ != 'session']
+        n += 1
+        rule.check(not missing and c.func.attr == f.name,
+                   ctx.construct(f, extra='forwards every parameter'),
+                   'the DB API facade drops %s on the way to the '
+                   'implementation (or calls another function): the call '
+                   'means something else for every caller'
+                   % missing, ctx.loc(f))
+    if n < (1 if names else 100):
+        raise AnalysisError('DB API facade functions not found (%d)' % n)
